@@ -550,44 +550,82 @@ pub fn check_step(s: &Step, tr: &mut Tracker, viols: &mut Vec<Viol>) -> Decides 
                 }
             }
         }
-        OpKind::CloneTo => {
+        OpKind::CloneTo | OpKind::CloneFrom => {
             dec |= C14 | C19 | C06;
         }
-        OpKind::IterScript { kind, script, end } => {
+        OpKind::IterScript { kind, script, end, skips } => {
             dec |= C12;
             if kind.borrowing() {
                 dec |= C19;
             } else {
                 dec |= C06;
             }
-            // expected yields
+            // expected yields: `next`/`next_back` take one element from their end; `nth(k)`/`nth_back(k)`
+            // first skip k (consuming them), exactly as k + 1 plain calls would
             let mut i = 0usize;
             let mut j = pre.entries.len();
+            let item_ok = |item: &IterItem, exp: Option<&EObs>| match (item, exp) {
+                (IterItem::None, None) => true,
+                (IterItem::Pair { ktok, vtok, kaddr, vaddr }, Some(e)) => *ktok == e.ktok && *vtok == e.vtok && (*kaddr == 0 || (*kaddr == e.kaddr && *vaddr == e.vaddr)),
+                (IterItem::Key { ktok, kaddr }, Some(e)) => *ktok == e.ktok && (*kaddr == 0 || *kaddr == e.kaddr),
+                (IterItem::Val { vtok, vaddr }, Some(e)) => *vtok == e.vtok && (*vaddr == 0 || *vaddr == e.vaddr),
+                _ => false,
+            };
             if let Outcome::Iter(items) = s.outcome {
+                let mut bad = false;
                 for (n, (&front, item)) in script.iter().zip(items.iter()).enumerate() {
-                    let exp = if i < j {
-                        if front {
+                    let k = skips.get(n).copied().unwrap_or(0) as usize;
+                    let exp = if front {
+                        i = (i + k).min(j);
+                        if i < j {
                             i += 1;
                             Some(&pre.entries[i - 1])
                         } else {
-                            j -= 1;
-                            Some(&pre.entries[j])
+                            None
                         }
                     } else {
-                        None
-                    };
-                    let ok = match (item, exp) {
-                        (IterItem::None, None) => true,
-                        (IterItem::Pair { ktok, vtok, kaddr, vaddr }, Some(e)) => {
-                            *ktok == e.ktok && *vtok == e.vtok && (*kaddr == 0 || (*kaddr == e.kaddr && *vaddr == e.vaddr))
+                        j = j.saturating_sub(k).max(i);
+                        if i < j {
+                            j -= 1;
+                            Some(&pre.entries[j])
+                        } else {
+                            None
                         }
-                        (IterItem::Key { ktok, kaddr }, Some(e)) => *ktok == e.ktok && (*kaddr == 0 || *kaddr == e.kaddr),
-                        (IterItem::Val { vtok, vaddr }, Some(e)) => *vtok == e.vtok && (*vaddr == 0 || *vaddr == e.vaddr),
-                        _ => false,
                     };
-                    if !ok {
-                        out.push(C12, "iter-yield", format!("{}: call {} ({}) yielded {:?}, expected {:?}", kind.name(), n, if front { "next" } else { "next_back" }, item, exp.map(|e| (e.ktok, e.vtok))));
+                    if !item_ok(item, exp) {
+                        let call = match (front, k) {
+                            (true, 0) => "next()".to_string(),
+                            (false, 0) => "next_back()".to_string(),
+                            (true, k) => format!("nth({})", k),
+                            (false, k) => format!("nth_back({})", k),
+                        };
+                        out.push(C12, "iter-yield", format!("{}: call {} ({}) yielded {:?}, expected {:?}", kind.name(), n, call, item, exp.map(|e| (e.ktok, e.vtok))));
+                        bad = true;
                         break;
+                    }
+                }
+                // terminal consumption through a provided method
+                let rest = &items[script.len().min(items.len())..];
+                if !bad {
+                    match end {
+                        EndMode::Count => {
+                            if rest != [IterItem::Count(j - i)] {
+                                out.push(C12, "iter-count", format!("{}: count() after the script returned {:?}, {} entries were left", kind.name(), rest, j - i));
+                            }
+                        }
+                        EndMode::Last => {
+                            let exp = if i < j { Some(&pre.entries[j - 1]) } else { None };
+                            if rest.len() != 1 || !item_ok(&rest[0], exp) {
+                                out.push(C12, "iter-last", format!("{}: last() after the script returned {:?}, expected {:?}", kind.name(), rest, exp.map(|e| (e.ktok, e.vtok))));
+                            }
+                        }
+                        EndMode::Fold => {
+                            let ok = rest.len() == j - i && rest.iter().zip(pre.entries[i..j].iter()).all(|(it, e)| item_ok(it, Some(e)));
+                            if !ok {
+                                out.push(C12, "iter-fold", format!("{}: fold() after the script visited {} items, the remaining {} entries in order were expected", kind.name(), rest.len(), j - i));
+                            }
+                        }
+                        _ => {}
                     }
                 }
             }
@@ -767,7 +805,7 @@ pub fn check_step(s: &Step, tr: &mut Tracker, viols: &mut Vec<Viol>) -> Decides 
             // "borrowing iterators change nothing"
             unchanged |= C12;
         }
-        if matches!(s.op.kind, OpKind::CloneTo) {
+        if s.op.kind.is_clone() {
             unchanged |= C14;
         }
     }
@@ -791,7 +829,7 @@ pub fn check_step(s: &Step, tr: &mut Tracker, viols: &mut Vec<Viol>) -> Decides 
     if s.op.kind.is_shared_ref_op() {
         // no drop may happen inside a &self operation except of instances it created itself
         // (clone: the previous occupant of the other slot is dropped by the harness)
-        let replaced: Vec<u32> = if matches!(s.op.kind, OpKind::CloneTo) {
+        let replaced: Vec<u32> = if s.op.kind.is_clone() {
             s.pre[o].as_ref().map(|p| p.entries.iter().flat_map(|e| [e.ktok, e.vtok]).collect()).unwrap_or_default()
         } else {
             Vec::new()
@@ -805,7 +843,7 @@ pub fn check_step(s: &Step, tr: &mut Tracker, viols: &mut Vec<Viol>) -> Decides 
     }
 
     // ---------------------------------------------------------------- C14: the other cache
-    if !matches!(s.op.kind, OpKind::CloneTo) {
+    if !s.op.kind.is_clone() {
         if let (Some(a), Some(b)) = (&s.pre[o], &s.post[o]) {
             dec |= C14;
             if a != b {
@@ -843,8 +881,10 @@ pub fn check_step(s: &Step, tr: &mut Tracker, viols: &mut Vec<Viol>) -> Decides 
             if same {
                 for (a, b) in src.entries.iter().zip(cl.entries.iter()) {
                     // "each owns its own copies": the clone's instances were created during this call
-                    let kc = b.ktok >= s.created.0 && b.ktok < s.created.1;
-                    let vc = b.vtok >= s.created.0 && b.vtok < s.created.1;
+                    // (`clone_from` may legitimately reuse storage the destination already owned)
+                    let from = matches!(s.op.kind, OpKind::CloneFrom);
+                    let kc = from || (b.ktok >= s.created.0 && b.ktok < s.created.1);
+                    let vc = from || (b.vtok >= s.created.0 && b.vtok < s.created.1);
                     if !kc || !vc || a.ktok == b.ktok || a.vtok == b.vtok || a.kaddr == b.kaddr {
                         out.push(C14, "clone-not-own-copy", format!("clone entry for key {} does not hold its own copies (key #{} from #{}, value #{} from #{})", a.id, b.ktok, a.ktok, b.vtok, a.vtok));
                         break;
@@ -947,7 +987,7 @@ pub fn check_step(s: &Step, tr: &mut Tracker, viols: &mut Vec<Viol>) -> Decides 
         let departed = if matches!(s.op.kind, OpKind::DropCache) { pre.len } else { departed };
         let bound = if zero_ops {
             0
-        } else if s.op.kind.is_capacity_op() || matches!(s.op.kind, OpKind::CloneTo) {
+        } else if s.op.kind.is_capacity_op() || s.op.kind.is_clone() {
             2 + pre.len
         } else if grew {
             2 + departed + post_t.map(|p| p.len.saturating_sub(1)).unwrap_or(0)
@@ -960,7 +1000,7 @@ pub fn check_step(s: &Step, tr: &mut Tracker, viols: &mut Vec<Viol>) -> Decides 
         // "operations that rebuild the table additionally hash each held entry, once": in a
         // rebuilding operation no key that stays in the cache may be hashed twice (the count bound
         // alone would let one entry be hashed twice if another were skipped)
-        let rebuild_op = grew || s.op.kind.is_capacity_op() || matches!(s.op.kind, OpKind::CloneTo);
+        let rebuild_op = grew || s.op.kind.is_capacity_op() || s.op.kind.is_clone();
         if rebuild_op {
             if let Some(p) = post_t {
                 let pre_k = sorted(&pre.entries.iter().map(|q| q.ktok).collect::<Vec<_>>());
@@ -1045,7 +1085,7 @@ pub fn check_step(s: &Step, tr: &mut Tracker, viols: &mut Vec<Viol>) -> Decides 
             }
         }
     }
-    if matches!(s.op.kind, OpKind::CloneTo) {
+    if s.op.kind.is_clone() {
         if let (Some(src), Some(cl)) = (&s.post[t], &s.post[o]) {
             let inherit = tr.slots[t].clone();
             tr.slots[o] = SlotTrack { peak_len: cl.len.max(inherit.peak_len), max_req_cap: inherit.max_req_cap.max(fresh_capacity(src.cap)).max(cl.cap), window: None };
